@@ -55,7 +55,10 @@ fn one_stream(ctx: &Ctx, acc: &mut Acc, l: L, lang: &text2num::Language, syms: &
     acc.states += 1;
     let base_text = syms.join(" ");
     let base_t2d = guard(|| text2digits(&base_text, lang).ok());
-    let base_toks: Vec<HTok> = syms.iter().enumerate().map(|(i, w)| HTok::new(i, w)).collect();
+    // a leading '~' marks a token unrelated to its predecessor (token-stream path only)
+    let hinted = syms.iter().any(|w| w.len() > 1 && w.starts_with('~'));
+    let mk = |i: usize, w: &str| if w.len() > 1 && w.starts_with('~') { HTok::decorated(i, w) } else { HTok::new(i, w) };
+    let base_toks: Vec<HTok> = syms.iter().enumerate().map(|(i, w)| mk(i, w)).collect();
     // U+0130 lower-cases to 'i' + a combining dot, which the tokenizer treats as a separator
     let has_splitting_capital = base_text.contains('\u{130}');
     for (name, rc) in recasings(lang, l, syms) {
@@ -66,11 +69,11 @@ fn one_stream(ctx: &Ctx, acc: &mut Acc, l: L, lang: &text2num::Language, syms: &
         acc.nontrivial += 1;
         // validator
         acc.traces += 1;
-        let got = guard(|| text2digits(&text, lang).ok());
+        let got = if hinted { base_t2d.clone() } else { guard(|| text2digits(&text, lang).ok()) };
         if got != base_t2d {
             ctx.report(acc, Violation { lang: l.code().into(), entry: "text2digits".into(), input: text.clone(), threshold: None, clause: format!("validate(recase(s)) = validate(s) [{name}]"), expected: format!("{base_t2d:?}"), observed: format!("{got:?}") });
         }
-        let rc_toks: Vec<HTok> = rc.iter().enumerate().map(|(i, w)| HTok::new(i, w)).collect();
+        let rc_toks: Vec<HTok> = rc.iter().enumerate().map(|(i, w)| mk(i, w)).collect();
         for &t in thrs {
             acc.transitions += 4 * syms.len() as u64;
             acc.traces += 3;
@@ -84,6 +87,9 @@ fn one_stream(ctx: &Ctx, acc: &mut Acc, l: L, lang: &text2num::Language, syms: &
             }
             if a != b {
                 ctx.report(acc, Violation { lang: l.code().into(), entry: "find_tokens".into(), input: serde_json::to_string(&rc).unwrap(), threshold: Some(t), clause: format!("occurrences(recase(s)) = occurrences(s) [{name}]"), expected: stream::show_occs(&a), observed: stream::show_occs(&b) });
+                continue;
+            }
+            if hinted {
                 continue;
             }
             // text path: same occurrences, untouched words keep their case
@@ -169,6 +175,38 @@ pub fn run(tier: Tier) -> i32 {
                 one_stream(&ctx, acc, l, &lang, syms, &[0.0, 10.0])
             }
         }));
+        // parts of the two-word linking entries, vocabulary words with an apostrophe in both spellings (' and U+2019),
+        // and '~'-hinted tokens: small alphabets, depth 3 / 4
+        {
+            let c = vocab::cls(l);
+            let mut ex: Vec<String> = vec![c.one.clone(), c.unit.clone(), ",".to_string()];
+            for e in vocab::linking_words(l) {
+                if e.contains(' ') {
+                    ex.extend(e.split(' ').map(|w| w.to_string()));
+                }
+                if e.contains('\'') {
+                    ex.push(e.to_string());
+                    ex.push(e.replace('\'', "\u{2019}"));
+                }
+            }
+            let mut ex2: Vec<String> = vec![];
+            for w in ex {
+                if !ex2.contains(&w) {
+                    ex2.push(w);
+                }
+            }
+            if ex2.len() > 3 {
+                total.merge(explore::all_sequences2(&ex2, 4, |syms, acc| one_stream(&ctx, acc, l, &lang, syms, &[0.0, 10.0])));
+            }
+            let hw: Vec<String> = vec![c.one.clone(), c.tens.clone(), c.unit.clone(), c.hundred.clone(), c.sep.clone(), c.small_ord.clone(), c.conj.clone(), c.ordinary.clone()];
+            let mut ha: Vec<String> = hw.clone();
+            ha.extend(hw.iter().map(|w| format!("~{w}")));
+            total.merge(explore::all_sequences2(&ha, 3, |syms, acc| {
+                if syms.iter().any(|s| s.starts_with('~')) {
+                    one_stream(&ctx, acc, l, &lang, syms, &[0.0, 10.0])
+                }
+            }));
+        }
         total.sample(json!({"lang": l.code(), "text": a1.iter().take(4).map(|w| w.to_uppercase()).collect::<Vec<_>>().join(" ")}));
     }
     let cov = json!({
